@@ -242,12 +242,90 @@ Definition children_ok (cs : schema) (bls : list (block jvalue)) (os : list chil
   Nat.eqb (List.length bls) (List.length os)
   && forallb (fun p => child_ok cs (fst p) (snd p)) (combine bls os).
 
+(* ---- tree-shaped histories -----------------------------------------------------
+   hcl.Body values are VALUES: Content / PartialContent / JustAttributes must
+   not change the body they are called on, so a body (root, remainder, child
+   block body, Expand of any of those) may be used any number of times and for
+   several different continuations. The models are pure functions, so a
+   tree-shaped history is a list of operations over a growing TABLE of bodies:
+   every operation names the table entry it is applied to; PartialContent
+   appends the remaining body, Expand the wrapped body, Child the Body of the
+   k-th block returned by PartialContent/Content S. The harness executes the
+   same operations on the SAME Go objects (no re-parsing in between). *)
+Inductive top :=
+| TPartial (on : Z) (s : schema) (o : obs) (ja : ja_obs)  (* appends the remaining body; ja = its JustAttributes *)
+| TContent (on : Z) (s : schema) (o : obs)
+| TJust (on : Z) (ja : ja_obs)
+| TExpand (on : Z)                                        (* appends dynblock.Expand(body) *)
+| TChild (on : Z) (partial : bool) (s : schema) (k : Z) (expanded : bool).
+    (* appends the Body of block k of PartialContent/Content s; expanded: the Go body is an expandBody *)
+
+(* dynblock.Expand of a body of the universe (an expandBody is never wrapped again) *)
+Definition expand_top (b : Btop) : option Btop :=
+  match b with
+  | inl (inl b0) => Some (inl (inr {| eorig := b0; ehA := []; ehB := [] |}))
+  | inr (inl m) => Some (inr (inr {| eorig := m; ehA := []; ehB := [] |}))
+  | _ => None
+  end.
+
+Definition child_top (b : Btop) (partial : bool) (s : schema) (k : Z) (expanded : bool) : option Btop :=
+  let c := if partial then fst (fst (b_partial Itop s b)) else fst (b_content Itop s b) in
+  match nth_error (cblocks c) (Z.to_nat k) with
+  | Some bl => let b0 := decode_child (bbody bl) in
+               Some (Single (if expanded then Xp b0 else Pl b0))
+  | None => None
+  end.
+
+Definition nthb (bs : list Btop) (i : Z) : option Btop :=
+  if i <? 0 then None else nth_error bs (Z.to_nat i).
+
+Fixpoint check_tree (bs : list Btop) (ops : list top) : bool :=
+  match ops with
+  | [] => true
+  | op :: r =>
+      match op with
+      | TPartial on s o ja =>
+          match nthb bs on with
+          | Some b => let '(c, rm, d) := b_partial Itop s b in
+                      obs_ok c d o && ja_ok (b_just_attrs Itop rm) ja && check_tree (bs ++ [rm]) r
+          | None => false
+          end
+      | TContent on s o =>
+          match nthb bs on with
+          | Some b => let '(c, d) := b_content Itop s b in obs_ok c d o && check_tree bs r
+          | None => false
+          end
+      | TJust on ja =>
+          match nthb bs on with
+          | Some b => ja_ok (b_just_attrs Itop b) ja && check_tree bs r
+          | None => false
+          end
+      | TExpand on =>
+          match nthb bs on with
+          | Some b => match expand_top b with
+                      | Some b' => check_tree (bs ++ [b']) r
+                      | None => false
+                      end
+          | None => false
+          end
+      | TChild on p s k x =>
+          match nthb bs on with
+          | Some b => match child_top b p s k x with
+                      | Some b' => check_tree (bs ++ [b']) r
+                      | None => false
+                      end
+          | None => false
+          end
+      end
+  end.
+
 Record case := {
   c_body : Btop;
   c_child : schema;                                  (* schema applied to every returned block's Body *)
   c_ja0 : ja_obs;                                    (* JustAttributes of the body itself *)
   c_steps : list (schema * obs * ja_obs * list child_obs);  (* PartialContent S; JustAttributes of remain; children *)
-  c_last : schema * obs * list child_obs             (* Content S on the last remain; children *)
+  c_last : schema * obs * list child_obs;            (* Content S on the last remain; children *)
+  c_tree : list top                                  (* tree-shaped history over the same body (table entry 0) *)
 }.
 Definition Case := Build_case.
 
@@ -265,7 +343,8 @@ Fixpoint check_steps (cs : schema) (b : Btop)
 
 Definition check_body_case (c : case) : bool :=
   ja_ok (b_just_attrs Itop (c_body c)) (c_ja0 c)
-  && check_steps (c_child c) (c_body c) (c_steps c) (c_last c).
+  && check_steps (c_child c) (c_body c) (c_steps c) (c_last c)
+  && check_tree [c_body c] (c_tree c).
 
 Definition check_body_cases (cs : list case) : list Z := failing check_body_case cs.
 
@@ -296,3 +375,52 @@ Definition model_case (c : case) :=
   model_steps (c_child c) (c_body c)
     (map (fun x => (fst (fst (fst x)), map fst (snd x))) (c_steps c))
     (fst (fst (c_last c)), map fst (snd (c_last c))).
+
+(* what the model says for the operations of a tree-shaped history: one entry
+   per operation (Expand / Child: empty observation, or DynOther "not in the
+   universe" when the operation cannot be applied) *)
+Definition mobs_of (c : content jvalue) (d : list diag) : mobs :=
+  (map aname (cattrs c), map (fun bl => (btype bl, blabels bl)) (cblocks c), d).
+Definition no_mobs : mobs := ([], [], []).
+Definition bad_mobs : mobs := ([], [], [(DynOther, "not in the universe"%string)]).
+Fixpoint model_tree (bs : list Btop) (ops : list top) : list (mobs * ja_obs) :=
+  match ops with
+  | [] => []
+  | op :: r =>
+      match op with
+      | TPartial on s _ _ =>
+          match nthb bs on with
+          | Some b => let '(c, rm, d) := b_partial Itop s b in
+                      let '(l, jd) := b_just_attrs Itop rm in
+                      (mobs_of c d, (map aname l, jd)) :: model_tree (bs ++ [rm]) r
+          | None => [(bad_mobs, ([], []))]
+          end
+      | TContent on s _ =>
+          match nthb bs on with
+          | Some b => let '(c, d) := b_content Itop s b in (mobs_of c d, ([], [])) :: model_tree bs r
+          | None => [(bad_mobs, ([], []))]
+          end
+      | TJust on _ =>
+          match nthb bs on with
+          | Some b => let '(l, jd) := b_just_attrs Itop b in (no_mobs, (map aname l, jd)) :: model_tree bs r
+          | None => [(bad_mobs, ([], []))]
+          end
+      | TExpand on =>
+          match nthb bs on with
+          | Some b => match expand_top b with
+                      | Some b' => (no_mobs, ([], [])) :: model_tree (bs ++ [b']) r
+                      | None => [(bad_mobs, ([], []))]
+                      end
+          | None => [(bad_mobs, ([], []))]
+          end
+      | TChild on p s k x =>
+          match nthb bs on with
+          | Some b => match child_top b p s k x with
+                      | Some b' => (no_mobs, ([], [])) :: model_tree (bs ++ [b']) r
+                      | None => [(bad_mobs, ([], []))]
+                      end
+          | None => [(bad_mobs, ([], []))]
+          end
+      end
+  end.
+Definition model_case_tree (c : case) := model_tree [c_body c] (c_tree c).
